@@ -144,7 +144,7 @@ def bounded(rep, tier):
     for m in SUBST:
         mod = importlib.import_module(m)
         hit = set()
-        for x in corpus.valid_numbers(m, 6 if tier == 'quick' else 40):
+        for x in corpus.valid_numbers(m, 6 if tier == 'quick' else 40) + corpus.synth_valid(m, 12 if tier == 'quick' else 200, int(os.environ.get('VERIF_SEED', '0') or 0)):
             if hit:
                 break
             try:
